@@ -247,6 +247,11 @@ def partitions(tier, seed):
             pr.update(base=1, positions=[0, 1, 3, 5, 6], second=12)
         P.append(dict(name="cat2/%d-%d" % (lo, hi), harness="h_catalogue", params=pr, budget=100 if q else 1800, reach=[],
                       bounds="two catalogue lines (first %d..%d, second any) at every position" % (lo, hi - 1)))
+    if q:
+        # after TWO complete entries (where "the last entry" and "the first entry" differ): two lines at the very end
+        for lo, hi in chunks:
+            P.append(dict(name="cat2-tail/%d-%d" % (lo, hi), harness="h_catalogue", params=dict(n=2, first=[lo, hi], base=0, positions=[12]),
+                          budget=100, reach=[], bounds="two catalogue lines (first %d..%d, second any) appended to a changelog of two entries" % (lo, hi - 1)))
     if not q:
         for lo in range(0, nc):
             P.append(dict(name="cat3/%d" % lo, harness="h_catalogue", params=dict(n=3, first=[lo, lo + 1]), budget=3000, reach=[],
